@@ -1,4 +1,158 @@
 /-
-  C02 — generator action and state codec.  Property theorems only (filled in as proofs land).
+  C02 — state codec and generated bit-permutation programs.  Property theorems only
+  (proofs are in `CvProofs/Codec.lean`), each followed by non-vacuity examples.
 -/
-import CvModel.Codec
+import CvProofs.Codec
+namespace Cv.C02
+open Cv.Codec
+
+/-! ### concrete instances used by the non-vacuity examples -/
+
+/-- width 3, 22 elements = 66 bits: two words, element 21 occupies bits 63..65 (straddles the word boundary) -/
+def p22 : List Nat := [5, 21, 0, 20, 3, 4, 1, 6, 19, 8, 9, 10, 11, 12, 13, 14, 15, 16, 17, 18, 7, 2]
+def s22 : List Nat := [1, 2, 3, 4, 5, 6, 7, 0, 1, 2, 3, 4, 5, 6, 7, 0, 1, 2, 3, 4, 5, 6]
+/-- width 16, 4 elements: exactly one word, the sign bit is used (a `>>` statement with negative mask) -/
+def p4 : List Nat := [3, 0, 1, 2]
+
+theorem p22_accepted : checkProg (compile p22 3 22) p22 3 22 2 = true := by decide +kernel
+theorem p4_accepted : checkProg (compile p4 16 4) p4 16 4 1 = true := by decide +kernel
+
+/-- bit semantics of one generated statement: output bit b is false or exactly one input bit -/
+theorem Stmt.eval_bit (s : Stmt) (x : W) (b : Nat) (hb : b < 64) :
+    (s.eval x).getLsbD b = match s.srcBit b with | none => false | some j => x.getLsbD j := by
+  exact Cv.Codec.Stmt.eval_bit s x b hb
+
+/-- non-vacuity: an arithmetic right shift of a negative masked word; without the post-mask bit 20 is the
+sign bit (bit 63), with the post-mask it is 0 -/
+example : (Stmt.mk 0 0 0xffff000000000000#64 0 48 none).srcBit 20 = some 63 := by decide
+example : (Stmt.mk 0 0 0xffff000000000000#64 0 48 (some 0x000000000000ffff#64)).srcBit 20 = none := by decide
+example : (Stmt.mk 0 0 0xffff000000000000#64 0 48 (some 0x000000000000ffff#64)).srcBit 5 = some 53 := by decide
+/-- the same on a concrete word: `>>` on int64 is arithmetic, the sign bit leaks without the post-mask -/
+example : (Stmt.mk 0 0 0xffff000000000000#64 0 48 none).eval 0x8000000000000000#64 = 0xffffffffffff8000#64 := by
+  decide +kernel
+example : (Stmt.mk 0 0 0xffff000000000000#64 0 48 (some 0x000000000000ffff#64)).eval 0x8000000000000000#64 =
+    0x0000000000008000#64 := by decide +kernel
+
+/-- soundness of the checker: an accepted program computes the bit permutation on ALL inputs -/
+theorem checkProg_sound (prog : List Stmt) (p : List Nat) (w n len : Nat)
+    (h : checkProg prog p w n len = true) (x : List W) (hx : x.length = len) :
+    evalProg prog len x = permuteBits p w n len x := by
+  exact Cv.Codec.checkProg_sound prog p w n len h x hx
+
+/-- non-vacuity: the library's program for a 2-word permutation is accepted … -/
+example : checkProg (compile p22 3 22) p22 3 22 2 = true := p22_accepted
+/-- … so it is correct on every input pair of words -/
+example (a b : W) : evalProg (compile p22 3 22) 2 [a, b] = permuteBits p22 3 22 2 [a, b] :=
+  checkProg_sound _ _ _ _ _ p22_accepted _ rfl
+/-- width 64 (every element is a whole word) and width 63 (three words, elements straddle both boundaries) -/
+example : checkProg (compile [1, 0] 64 2) [1, 0] 64 2 (encLen 64 2) = true := by decide +kernel
+example : checkProg (compile [2, 0, 1] 63 3) [2, 0, 1] 63 3 (encLen 63 3) = true := by decide +kernel
+/-- negative example: the program for `p4` contains a `>>` statement with negative mask (sign bit set) … -/
+example : (compile p4 16 4).any (fun s => s.mask.msb && decide (s.shr > 0) && s.post.isSome) = true := by
+  decide +kernel
+/-- … and dropping its post-mask makes the checker reject -/
+example : checkProg ((compile p4 16 4).map fun s => { s with post := none }) p4 16 4 1 = false := by
+  decide +kernel
+example : checkProg ((compile p22 3 22).map fun s => { s with post := none }) p22 3 22 2 = false := by
+  decide +kernel
+/-- the checker also rejects a program for a different permutation -/
+example : checkProg (compile p4 16 4) [1, 0, 3, 2] 16 4 1 = false := by decide +kernel
+
+/-- the 1-D routine (single word) -/
+theorem checkProg_sound_1d (prog : List Stmt) (p : List Nat) (w n : Nat)
+    (h : checkProg prog p w n 1 = true) (hsd : ∀ s ∈ prog, s.src = 0 ∧ s.dst = 0) (x : W) :
+    [evalProg1d prog x] = permuteBits p w n 1 [x] := by
+  exact Cv.Codec.checkProg_sound_1d prog p w n h hsd x
+
+/-- non-vacuity: both hypotheses hold for the library's single-word program -/
+example : checkProg (compile p4 16 4) p4 16 4 1 = true ∧ ∀ s ∈ compile p4 16 4, s.src = 0 ∧ s.dst = 0 :=
+  ⟨p4_accepted, by decide +kernel⟩
+
+/-- encode/decode round trip: any row the encoder accepts -/
+theorem decode_encode (w n : Nat) (hw : 1 ≤ w) (hw' : w ≤ 64) (s : List Nat) (h : encodable w n s = true) :
+    decode w n (encode w n s) = s := by
+  exact Cv.Codec.decode_encode w n hw hw' s h
+
+example : encodable 3 22 s22 = true := by decide +kernel
+example : encodable 64 2 [2 ^ 63 - 1, 12345] = true := by decide +kernel
+/-- entries `≥ 2^63` are not int64 values and are rejected even at width 64 -/
+example : encodable 64 2 [2 ^ 63, 0] = false := by decide +kernel
+
+/-- bit characterisation of `encode`: for `t < n*w` bit `t` of the encoding is bit `t % w` of element `t / w` … -/
+theorem encode_bit (w n : Nat) (hw' : w ≤ 64) (s : List Nat) (t : Nat) (ht : t < n * w) :
+    ((encode w n s).getD (t / 64) 0#64).getLsbD (t % 64) = (s.getD (t / w) 0).testBit (t % w) := by
+  exact Cv.Codec.encode_bit' w n hw' s t ht
+
+/-- … and padding bits are 0 -/
+theorem encode_bit_padding (w n : Nat) (hw' : w ≤ 64) (s : List Nat) (t : Nat) (ht : n * w ≤ t) :
+    ((encode w n s).getD (t / 64) 0#64).getLsbD (t % 64) = false := by
+  exact Cv.Codec.encode_bit_padding w n hw' s t ht
+
+/-- non-vacuity: bit 64 of the encoding of `s22` is bit 1 of element 21 (the straddling element, `6 = 0b110`) -/
+example : ((encode 3 22 s22).getD 1 0#64).getLsbD 0 = true := by decide +kernel
+
+/-- the bit permutation acts on decoded states as the defined action new[j] = old[p[j]] -/
+theorem permuteBits_action (p : List Nat) (w n : Nat) (hw : 1 ≤ w) (hw' : w ≤ 64)
+    (hpl : p.length = n) (hp : ∀ i ∈ p, i < n) (s : List Nat) (h : encodable w n s = true) :
+    decode w n (permuteBits p w n (encLen w n) (encode w n s)) = p.map fun i => s.getD i 0 := by
+  exact Cv.Codec.permuteBits_action p w n hw hw' hpl hp s h
+
+example : p22.length = 22 ∧ (∀ i ∈ p22, i < 22) ∧ encodable 3 22 s22 = true := by decide +kernel
+example : decode 3 22 (permuteBits p22 3 22 (encLen 3 22) (encode 3 22 s22)) =
+    [6, 6, 1, 5, 4, 5, 2, 7, 4, 1, 2, 3, 4, 5, 6, 7, 0, 1, 2, 3, 0, 3] := by decide +kernel
+
+/-- the automatic width is the least width ≥ 1 that can hold the largest value -/
+theorem autoWidth_spec (m : Nat) :
+    1 ≤ autoWidth m ∧ m < 2 ^ autoWidth m ∧ ∀ k, 1 ≤ k → m < 2 ^ k → autoWidth m ≤ k := by
+  exact Cv.Codec.autoWidth_spec m
+
+example : autoWidth 0 = 1 ∧ autoWidth 1 = 1 ∧ autoWidth 7 = 3 ∧ autoWidth 8 = 4 ∧ autoWidth (2 ^ 63 - 1) = 63 := by
+  decide +kernel
+
+/-- corollary: an accepted program acts on encoded states as the defined action new[j] = old[p[j]] -/
+theorem generated_routine_action (prog : List Stmt) (p : List Nat) (w n : Nat) (hw : 1 ≤ w) (hw' : w ≤ 64)
+    (hpl : p.length = n) (hp : ∀ i ∈ p, i < n) (hc : checkProg prog p w n (encLen w n) = true)
+    (s : List Nat) (h : encodable w n s = true) :
+    decode w n (evalProg prog (encLen w n) (encode w n s)) = p.map fun i => s.getD i 0 := by
+  exact Cv.Codec.generated_routine_action prog p w n hw hw' hpl hp hc s h
+
+/-- non-vacuity: all hypotheses hold for the library's program for `p22`, and the conclusion is the expected row -/
+example : decode 3 22 (evalProg (compile p22 3 22) (encLen 3 22) (encode 3 22 s22)) = p22.map fun i => s22.getD i 0 :=
+  generated_routine_action _ p22 3 22 (by decide) (by decide) (by decide) (by decide) p22_accepted s22
+    (by decide +kernel)
+
+/-- the library's compiler always produces an accepted program (∀ permutations, widths, lengths) -/
+theorem compile_accepted (p : List Nat) (w n : Nat) (hw : 1 ≤ w) (hw' : w ≤ 64)
+    (hpl : p.length = n) (hp : p.Perm (List.range n)) :
+    checkProg (compile p w n) p w n (encLen w n) = true := by
+  exact Cv.Codec.compile_accepted p w n hw hw' hpl hp
+
+/-- non-vacuity: `p22` is a permutation of `range 22` (so the general theorem re-derives `p22_accepted`) -/
+example : p22.Perm (List.range 22) := by decide +kernel
+example : checkProg (compile p22 3 22) p22 3 22 (encLen 3 22) = true :=
+  compile_accepted p22 3 22 (by decide) (by decide) (by decide) (by decide +kernel)
+/-- the compiler's output is non-trivial: 11 statements, one of them with a post-mask -/
+example : (compile p22 3 22).length = 11 ∧ ((compile p22 3 22).filter fun s => s.post.isSome).length = 1 := by
+  decide +kernel
+
+/-- consequence (not in the task list): the library's 2-D routine for ANY permutation acts on encoded states as
+the defined action new[j] = old[p[j]] -/
+theorem compiled_routine_action (p : List Nat) (w n : Nat) (hw : 1 ≤ w) (hw' : w ≤ 64)
+    (hpl : p.length = n) (hp : p.Perm (List.range n)) (s : List Nat) (h : encodable w n s = true) :
+    decode w n (evalProg (compile p w n) (encLen w n) (encode w n s)) = p.map fun i => s.getD i 0 := by
+  exact Cv.Codec.compiled_routine_action p w n hw hw' hpl hp s h
+
+example : decode 3 22 (evalProg (compile p22 3 22) (encLen 3 22) (encode 3 22 s22)) =
+    [6, 6, 1, 5, 4, 5, 2, 7, 4, 1, 2, 3, 4, 5, 6, 7, 0, 1, 2, 3, 0, 3] :=
+  compiled_routine_action p22 3 22 (by decide) (by decide) (by decide) (by decide +kernel) s22 (by decide +kernel)
+
+/-- consequence (not in the task list): the library's 1-D routine (states that fit one word) for ANY permutation
+computes the bit permutation on every word -/
+theorem compiled_routine_1d (p : List Nat) (w n : Nat) (hw : 1 ≤ w) (hw' : w ≤ 64)
+    (hpl : p.length = n) (hp : p.Perm (List.range n)) (h1 : encLen w n = 1) (x : W) :
+    [evalProg1d (compile p w n) x] = permuteBits p w n 1 [x] := by
+  exact Cv.Codec.compiled_routine_1d p w n hw hw' hpl hp h1 x
+
+example : p4.Perm (List.range 4) ∧ encLen 16 4 = 1 := by decide +kernel
+
+end Cv.C02
